@@ -328,6 +328,11 @@ def collapse_case(ctx, rng, n_rows, n):
     """MultiformOperator.collapse on an int8 array with duplicate rows vs exact summation"""
     from tangelo.toolboxes.operators.multiformoperator import MultiformOperator
     pool = [tuple(rng.randint(0, 3) for _ in range(n)) for _ in range(max(3, n_rows // 3))]
+    if n > 8:
+        # wide registers: words that differ on the first qubits only (and a few that differ at the end)
+        tail = tuple(rng.randint(0, 3) for _ in range(n - 3))
+        pool = [tuple(rng.randint(0, 3) for _ in range(3)) + tail for _ in range(max(3, n_rows // 3))]
+        pool += [tail[:n - 3] + tuple(rng.randint(0, 3) for _ in range(3)) for _ in range(2)]
     rows = [rng.choice(pool) for _ in range(n_rows)]
     facs = [rand_coef(rng) for _ in range(n_rows)]
     arr = np.array(rows, dtype=np.int8)
@@ -374,6 +379,16 @@ def run(ctx):
     for i in range(ctx.n(80, 2000)):
         n = rng.randint(1, 4)
         if not multiform_case(ctx, rand_terms(rng, "qubit", n), rand_terms(rng, "qubit", n), n) and len(ctx.violations) >= 3:
+            return
+    # wide registers (beyond 32 qubits: any packing of a word into a machine integer overflows)
+    for n in ([33, 40] if ctx.quick else [16, 31, 32, 33, 34, 40, 64, 70]):
+        if not collapse_case(ctx, rng, 30, n):
+            return
+        hi = n - 1
+        ta = {((0, rng.choice([1, 2, 3])), (hi, 3)): rand_coef(rng), ((0, rng.choice([1, 2, 3])), (1, 2), (hi, 3)): rand_coef(rng), ((1, 1), (hi, 3)): rand_coef(rng)}
+        tb = {((hi, rng.choice([1, 2]))): rand_coef(rng) for _ in range(1)}
+        tb = {((hi, rng.choice([1, 2])),): rand_coef(rng), ((0, 1), (hi - 1, 2)): rand_coef(rng)}
+        if not multiform_case(ctx, ta, tb, n):
             return
     # large collapse (duplicate rows beyond 128 terms)
     big_a = {tuple((q, rng.choice([1, 2, 3])) for q in sorted(rng.sample(range(6), 3))): rand_coef(rng) for _ in range(ctx.n(70, 150))}
